@@ -55,7 +55,7 @@ def gen_ident(rng):
 def context(rng, idents):
     """canonical encoding of a random context around the given identifier encodings"""
     i1 = bytes([97, 7])
-    k = rng.choice(["tuple", "list", "tail", "mapkey", "mapval", "fun", "nest"])
+    k = rng.choice(["tuple", "list", "tail", "mapkey", "mapval", "fun", "funpid", "nest"])
     e = idents[0]
     rest = idents[1:]
     inner = e if not rest else bytes([104, len(idents)]) + b"".join(idents)
@@ -72,6 +72,14 @@ def context(rng, idents):
     if k == "nest":
         return bytes([104, 1, 108, 0, 0, 0, 1, 116, 0, 0, 0, 1]) + a8(b"k") + bytes([104, 2]) + inner + i1 + bytes([106])
     pid = termgen.modern_id_bytes("pid", b"n@h", 1, 2, 3)
+    if k == "funpid":
+        # the fun's own creator pid is the received identifier (when it is a pid, in whichever form it arrived); the
+        # remaining identifiers are its free variables
+        first_is_pid = e[0] in (88, 103) or (e[0] == 121 and e[9] in (88, 103))
+        if first_is_pid:
+            free = rest
+            body = bytes([2]) + bytes(range(16)) + struct.pack(">II", 5, len(free)) + a8(b"mod") + bytes([97, 3, 97, 4]) + e + b"".join(free)
+            return bytes([112]) + struct.pack(">I", len(body) + 4) + body
     body = bytes([2]) + bytes(range(16)) + struct.pack(">II", 5, 1) + a8(b"mod") + bytes([97, 3, 97, 4]) + pid + inner
     return bytes([112]) + struct.pack(">I", len(body) + 4) + body
 
